@@ -35,7 +35,12 @@ TRUSTED = ['CPython compile(): the syntax check of parse_model (since a900a8c it
            'CPython compile()/exec() and str.format (the latter mirrored by pyFormat for automatic/manual positional '
            'fields; attribute/item access, conversions and format specs are outside the model and skipped)',
            'harness/parser_oracle.py canary (sentinel `self`/`CANARY` in fsic.parser globals, patched print/open)']
-ASSUMPTIONS = ['the syntax gate of parse_model is CPython compile() applied to each generated statement and to each verbatim '
+ASSUMPTIONS = ['termination of the REAL parser is not a theorem: the Lean scanner terminates by structural recursion, the '
+               'regular-expression engine may backtrack; the tie for "parse_model terminates" is the wall-clock budget '
+               '(5000 x a reference parse measured in the same child process, at least 5 s per script) on identifiers of '
+               'length 1..64 in every family x context, the growth check (doubling the length must not multiply the time by '
+               'more than 8) and the 20 s alarm on every other input',
+               'the syntax gate of parse_model is CPython compile() applied to each generated statement and to each verbatim '
                'block ON ITS OWN (module level, no indentation context), while build_model places the same text inside a '
                'method body; M2 does not model this gate (pyCompiles is a parameter) — the implication accepted => builds '
                '=> instantiates is checked by the oracle over fenced blocks of every shape, not proved',
@@ -271,7 +276,42 @@ def w_aux(payload, rep):
             rep.disagree('whitespace normalisation vs normaliseWs', {'text': s}, o, lc.cps(lc.py_normalise(s)))
 
 
-for _n, _f in (('texts', w_texts), ('grammar', w_grammar), ('small', w_small), ('mutants', w_mutants), ('aux', w_aux)):
+def w_timing(payload, rep):
+    """Long identifiers of every family x context, lengths 1..64, each parse under a calibrated wall-clock budget,
+    plus the growth of the parse time with the length of the name."""
+    import parse_timing as pt
+    items = pt.scripts(families=payload)
+    times, timeouts, ref = pt.run(items)
+    rep.dist[f'timing:{payload[0]}:reference-parse-us'] = int((ref or 0) * 1e6)
+    for shape, n, script, budget in timeouts:
+        rep.violate('parse-does-not-terminate-in-budget',
+                    f'parse_model did not return within {budget:.1f}s (5000 x the reference parse, at least 5 s) for a '
+                    f'{n}-character identifier in shape {shape}', {'stream': 'timing', 'text': script, 'shape': shape, 'n': n})
+    table = pt.growth_table(times)
+    worst = (0.0, None)
+    for shape, d in table.items():
+        for a, b in ((16, 32), (32, 64), (8, 16)):
+            if a in d and b in d:
+                ratio = d[b] / max(d[a], 1e-4)
+                worst = max(worst, (ratio, f'{shape} {a}->{b}'))
+                if ratio > 8 and d[b] > 0.02:
+                    rep.violate('parse-time-superpolynomial',
+                                f'doubling the identifier from {a} to {b} characters multiplies the parse time by {ratio:.0f} '
+                                f'({d[a] * 1e3:.2f} ms -> {d[b] * 1e3:.2f} ms) in shape {shape}',
+                                {'stream': 'timing', 'text': [it[2] for it in items if it[0] == shape and it[1] == b][0],
+                                 'shape': shape, 'n': b})
+        for n, dt in d.items():
+            rep.case(('timing', shape, n), nontrivial=n >= 16)
+    if table:
+        shape0 = sorted(table)[0]
+        rep.notes.append(f'parse time (us) by identifier length, shape {shape0}: '
+                         + ', '.join(f'{n}:{int(table[shape0][n] * 1e6)}' for n in sorted(table[shape0]))
+                         + f'; worst doubling ratio {worst[0]:.1f} at {worst[1]}; reference parse {int((ref or 0) * 1e6)} us')
+    rep.dist['timing:scripts'] += len(times)
+    rep.dist[f'timing:{payload[0]}:worst-doubling-ratio-x10'] = int(worst[0] * 10)
+
+
+for _n, _f in (('timing', w_timing), ('texts', w_texts), ('grammar', w_grammar), ('small', w_small), ('mutants', w_mutants), ('aux', w_aux)):
     ts.register('c13:' + _n, _f)
 
 
@@ -298,6 +338,9 @@ def run(ctx, rep):
     for first in range(0, n_mut, 100):
         tasks.append(('c13:mutants', (f'{ctx.seed}:mut', first, min(100, n_mut - first), oo)))
     tasks.append(('c13:texts', ('findings', FINDING_INPUTS, 'exact', False, oo)))
+    import parse_timing as pt
+    for fam in pt.FAMILIES:
+        tasks.insert(0, ('c13:timing', [fam]))      # first: they run while the machine is least loaded by this check
     blocks = [t for _, t in ts.block_scripts()]
     for lo in range(0, len(blocks), 120):
         tasks.append(('c13:texts', ('blocks', blocks[lo:lo + 120], False, False, oo)))
@@ -325,6 +368,15 @@ def search(ctx, rep, disagreements):
 
 
 def replay(ctx, rep, case):
+    if case.get('stream') == 'timing':
+        import parse_timing as pt
+        times, timeouts, ref = pt.run([(case.get('shape', 'replay'), case.get('n', 0), case['text'])])
+        print('  text :', repr(case['text']), ' reference parse', ref, ' time', times, ' timeouts', timeouts)
+        if timeouts:
+            rep.violate('parse-does-not-terminate-in-budget', 'still over budget', case)
+        elif any(dt > 5000 * (ref or 1e-3) for dt in times.values()):
+            rep.violate('parse-time-superpolynomial', 'still far above the reference parse', case)
+        return
     s = case['text']
     print('  text :', repr(s))
     oracle_texts([s], rep, 'replay',
